@@ -11,8 +11,10 @@
   to itself (`fitLoop_outOfFuel_exact`, `fitLoop_terminates`, `replaceStep_not_outOfFuel`); the
   failure classes of `replaceStep` (`replaceStep_failures`); `replaceStep` *returns* for every
   deletion (`delete_total`, `deleteRange_total`) and for every closed slice of leaf / text nodes
-  (`insertInline_total`) on a valid document.  For other slices that the run does not raise is not
-  proved (`fit_no_internal_partial` says what is); every other Fitter theorem assumes `.ok`.
+  (`insertInline_total`) on a valid document, and — last section, `fit_no_raise` — for **every** slice, of any
+  open depths, that satisfies two static decidable guards (`Slice.openPrefixOk`: the two raise sites of
+  `place_nodes`; `Slice.stableOk`: `open_start` never goes stale), with kernel-checked examples that the model
+  (and the real code) raises where a guard fails.
   Helpers: Proofs/Respects.lean, RangeOps.lean, Fitter.lean, FitterText.lean, FitRaises.lean,
   FitMeasure.lean, FitScan.lean, FitTerm.lean, FitLoop.lean, FitTotal.lean, FitDelete.lean, FitInline.lean,
   FitInv.lean (well-formedness of the emitted step, last section but one), FillOrder.lean.
@@ -39,9 +41,14 @@ import Proofs.InsertAtValid
 import Proofs.DeleteFlat
 import Proofs.FitOpen
 import Proofs.FitNoRaise
+import Proofs.FitRaiseFree
+import Proofs.FitStable
+import Proofs.FitCutGuard
 import Proofs.FitNorm
 import Proofs.JoinSuccess
 import Proofs.Placement
+import Proofs.DelAround
+import Proofs.InsAround
 import Props.C01
 namespace PM.C11
 open PM
@@ -897,7 +904,8 @@ example :
 
 /-! ### no internal outcome, the general corollary (partial)
 
-FULL STATEMENTS AIMED AT (not proved in general):
+(Proved since, under static guards on the slice: `fit_no_raise`, last section of this file.)
+FULL STATEMENTS AIMED AT when this section was written:
 
 `fit_no_internal` : `detB S → C01.Valid S doc → f ≤ t ≤ size doc → sl.wf → sl.noPartialNode S →
   (slice nodes schema-valid) → replaceStep S doc f t sl ≠ .error .raises ∧ ≠ .error .negInsert`
@@ -1234,7 +1242,9 @@ PROVED (this section):
   `fit_emits_wf` and `leafOkB`, `textStableC`, `closableB`: no hypothesis on the Fitter's state (Proofs/FitOpen.lean:
   `VInv` is invariant under `place_nodes` for open slices as well, and the unplaced slice stays loosely valid, `UInv`).
 
-FULL STATEMENT STILL AIMED AT (not proved):
+FULL STATEMENT AIMED AT when this section was written (proved since — with the guards `openPrefixOk` and `stableOk` in
+the place of `noPartialNode`, which does not cover every suffix of the children nor the stale `open_start` — as
+`fit_no_raise`, last section of this file):
 `fit_no_raise` : … `→ sl.noPartialNode S → replaceStep S doc f t sl ≠ .error .raises`, and with
   `fitLoop_terminates` the total `replaceStep_total`.  The raise sites of the loop: `content_match_at(child_count)` on the
   node `place_nodes` re-opens (the partial-node finding), `fill_before` answering `None` inside `close_node_start`, and
@@ -1825,7 +1835,7 @@ The theorems above are about the *emitted step*.  This section composes them int
   lifts through the plans of `replace_range` / `replace_range_with` (`replaceRange_valid_delete`,
   `replaceRange_valid_inline_partial`, `replaceRange_valid_of_inv_partial`, `replaceRangeWith_valid_*_partial`);
 * `aroundPayload_of_norm`, `insertInline_valid_of_norm`, `replace_valid_of_inv_of_norm` — `AroundPayload` discharged by
-  `insertAt_openValid` (Proofs/InsertAtValid.lean) for documents in normal form and `textStableB` schemas; what is left
+  `insertAt_openValid` (Proofs/InsertAtValid.lean; no schema condition since `insert_into` validates what it builds); what is left
   for a `ReplaceAroundStep` answer is that its slice is in normal form (`fnorm`, decidable; not proved for the Fitter);
 * `delete_total_valid`, `deleteRange_total_valid`, `insertInline_total_valid_partial` — with the totality theorems: the
   operation does not raise inside `replace_step`, and its `Step.apply` ends in a valid document with the content kept or
@@ -1840,7 +1850,14 @@ target (`reopen`: same types), and every joined node's content is accepted becau
 state after the joined content (`Coh`, Proofs/FitCoherent.lean) and `find_close_level` / `content_after_fits` answered
 a filling for the rest of the document's node behind `to`.  `Coh` is proved invariant only under `unplacedWfRun`; the
 bridge "`Coh` at the end of `close` ⇒ `checkContent` of every joined level" is not proved.  The tie (op `fitEmit`) applies
-every emitted step of the model and of the code and compares the documents. -/
+every emitted step of the model and of the code and compares the documents.
+
+SINCE PROVED by a different route (the result document built explicitly from the frames of `from` and of the position
+`close` continues from; sections "The emitted step applies" at the end of this file): `delete_applies` /
+`delete_never_raises` / `deleteRange_never_raises` for every deletion under decidable schema guards, and for content
+`replace_applies_direct` / `insertInline_never_raises_direct_partial` (the node `from` is in accepts the slice as it
+stands).  Still open for inline leaves: the runs in which the Fitter closes frontier nodes or opens wrappers before it
+places the content. -/
 
 /-- **what C11 says about the document an operation returns** for the request "replace `[f, t)` of a document with
     tokens `d` by a slice with text `req`": the content tokens (text units and leaf nodes, with marks and attributes)
@@ -2200,8 +2217,8 @@ theorem wf_of_inlineLeaves (S : Schema) (sl : Slice) (hsl : sl.inlineLeaves S = 
     them is an in-order subsequence of the slice's text (`Kept`).  **Unconditional when the answer is a
     `ReplaceStep`**; for a `ReplaceAroundStep` answer one hypothesis about the step is left (`AroundPayload`).
     FULL STATEMENT (`insertInline_valid`): the same without `hpa`.  Missing: `Slice.insert_at(insert, gap)` keeps
-    `openValid` at `insert > 0` — Proofs/InsertAtValid.lean proves it for closed slices (`insertAt_closed_openValid`,
-    under `FromDom.TextStable`, slice and gap in normal form); the emitted slice is open at the start
+    `openValid` at `insert > 0` — Proofs/InsertAtValid.lean proves it (`insertAt_openValid`; see
+    `insertInline_valid` below); the emitted slice is open at the start
     (`open_start = depth(from)`), and its normal form (`fnorm`) is not proved for the Fitter (the same residual as in
     C04's `DeleteResidual`). -/
 theorem insertInline_valid_partial (S : Schema) (hdet : detB S = true) (hfill : S.fillersOKB = true)
@@ -2326,15 +2343,16 @@ theorem replaceRangeWith_valid_inline_partial (S : Schema) (hdet : detB S = true
   exact replaceRange_valid_inline_partial S hdet hfill hwrap hlab hleaf hts hcl doc doc' f t ⟨[node], 0, 0⟩ cs hv hattrs
     hft (by simp [Slice.wf]) hcs c hc hsl hslv st hst hpa ha
 
-/-- **`aroundPayload_of_norm`** — the residual `AroundPayload` reduced to normal form: on a valid document in normal form,
-    for a schema with `FromDom.textStableB` (a text child does not change what the content automaton accepts next), a
+/-- **`aroundPayload_of_norm`** — the residual `AroundPayload` reduced to normal form: on a valid document, a
     well-formed replace-around answer whose slice is a valid payload **and in normal form** (`fnorm`: no empty text
     nodes, no adjacent text nodes with equal marks) has a valid payload with the gap content in place —
     `Slice.insert_at(insert, gap)` keeps `openValid` at every position (`insertAt_openValid`, Proofs/InsertAtValid.lean:
-    a receiving node that is complete in the slice is checked by `can_replace`, one on an open side is validated by
-    `replace` when the slice is placed), and the gap `[to, to.end())` is a closed slice of valid nodes in normal form -/
-theorem aroundPayload_of_norm (S : Schema) (hst : PM.FromDom.textStableB S = true) (doc : Node) (f t : Nat)
-    (req : Slice) (hv : C01.Valid S doc) (hn : fnorm doc.kids = true) (st : Step)
+    a receiving node that is complete in the slice validates the content that is built — `insert_into` as repaired for
+    finding C01-insert-inside-text —, one on an open side is validated by `replace` when the slice is placed), and the
+    gap `[to, to.end())` is a closed slice of valid nodes.  (Before that repair the statement needed
+    `FromDom.textStableB S` and the normal form of the document.) -/
+theorem aroundPayload_of_norm (S : Schema) (doc : Node) (f t : Nat)
+    (req : Slice) (hv : C01.Valid S doc) (st : Step)
     (h : replaceStep S doc f t req = .ok (some st)) (hwf : StepWF st = true)
     (hp : ∃ sl', st.sliceOf = some sl' ∧ openValid S sl'.openStart sl'.openEnd sl'.content = true)
     (hsn : ∀ sl', st.sliceOf = some sl' → fnorm sl'.content = true) : AroundPayload S doc st := by
@@ -2346,25 +2364,23 @@ theorem aroundPayload_of_norm (S : Schema) (hst : PM.FromDom.textStableB S = tru
   simp only [StepWF, Bool.and_eq_true, decide_eq_true_eq] at hwf
   intro gap res hgap hres
   have hg := fit_around_gap_valid S doc f t req hv F T G1 G2 sl ins b h gap hgap
-  have hgn := (sliceKids_norm doc.kids G1 G2 gap hn hgap).1
-  exact insertAt_openValid S (PM.FromDom.textStable_of_B S hst) sl res ins gap.content hg hgn (hsn sl rfl) hwf.2 hval hres
+  exact insertAt_openValid S sl res ins gap.content hg (hsn sl rfl) hval hres
 
 /-- **`insertInline_valid_of_norm`** — `insertInline_valid_partial` with the residual reduced to the normal form of the
-    emitted slice (a decidable property of the recorded step; the document in normal form, the schema
-    `textStableB`): no payload hypothesis left for either step kind -/
+    emitted slice (a decidable property of the recorded step): no payload hypothesis left for either step kind -/
 theorem insertInline_valid_of_norm (S : Schema) (hdet : detB S = true) (hfill : S.fillersOKB = true)
     (hwrap : S.wrapOKB = true) (hlab : S.labelsOKB = true) (hleaf : PM.FromDom.leafOkB S = true)
-    (hts : textStableC S = true) (hcl : S.closableB = true) (hst : PM.FromDom.textStableB S = true)
+    (hts : textStableC S = true) (hcl : S.closableB = true)
     (doc doc' : Node) (f t : Nat) (sl : Slice)
     (hsl : sl.inlineLeaves S = true) (hslv : sl.closedValid S = true) (hv : C01.Valid S doc)
-    (hn : fnorm doc.kids = true) (hattrs : S.nodeAttrsOK doc = true) (hft : f ≤ t) (st : Step)
+    (hattrs : S.nodeAttrsOK doc = true) (hft : f ≤ t) (st : Step)
     (h : replaceStep S doc f t sl = .ok (some st))
     (hsn : ∀ F T G1 G2 sl' ins b, st = .replaceAround F T G1 G2 sl' ins b → fnorm sl'.content = true)
     (ha : S.apply st doc = .ok doc') :
     C01.Valid S doc' ∧ Kept (ftoks doc.kids) (ftoks doc'.kids) f t (textUnits (sliceToks' sl)) := by
   refine insertInline_valid_partial S hdet hfill hwrap hlab hleaf hts hcl doc doc' f t sl hsl hslv hv hattrs hft st h ?_ ha
   intro F T G1 G2 sl' ins b hst'
-  refine aroundPayload_of_norm S hst doc f t sl hv hn st h
+  refine aroundPayload_of_norm S doc f t sl hv st h
     (insertInline_emits_wf S hdet hfill hwrap doc f t sl hsl hv hattrs hft st h).1
     (insertInline_emits_valid_payload S hdet hfill hwrap hlab hleaf hts hcl doc f t sl hsl hslv hv hattrs st h) ?_
     F T G1 G2 sl' ins b hst'
@@ -2378,10 +2394,9 @@ theorem insertInline_valid_of_norm (S : Schema) (hdet : detB S = true) (hfill : 
     `fitEndInv ≠ some false`, the residual for a replace-around answer reduced to the normal form of its slice -/
 theorem replace_valid_of_inv_of_norm (S : Schema) (hdet : detB S = true) (hfill : S.fillersOKB = true)
     (hleaf : PM.FromDom.leafOkB S = true) (hts : textStableC S = true) (hcl : S.closableB = true)
-    (hst : PM.FromDom.textStableB S = true)
     (doc doc' : Node) (f t : Nat) (sl : Slice) (hwf : sl.wf = true)
     (hslv : openValid S sl.openStart sl.openEnd sl.content = true) (hv : C01.Valid S doc)
-    (hn : fnorm doc.kids = true) (hattrs : S.nodeAttrsOK doc = true) (hft : f ≤ t) (st : Step)
+    (hattrs : S.nodeAttrsOK doc = true) (hft : f ≤ t) (st : Step)
     (h : replaceStep S doc f t sl = .ok (some st))
     (hend : fitEndInv S doc f t sl ≠ some false)
     (hsn : ∀ F T G1 G2 sl' ins b, st = .replaceAround F T G1 G2 sl' ins b → fnorm sl'.content = true)
@@ -2397,7 +2412,7 @@ theorem replace_valid_of_inv_of_norm (S : Schema) (hdet : detB S = true) (hfill 
     rcases hi rf st0 st1 h1 h2 h3 with e | e
     · rw [e] at hst'; cases hst'
     · exact e
-  refine aroundPayload_of_norm S hst doc f t sl hv hn st h hswf
+  refine aroundPayload_of_norm S doc f t sl hv st h hswf
     (fit_emits_valid_payload_of_inv S hdet hfill hleaf hts hcl doc f t sl hslv hattrs st h hend) ?_
     F T G1 G2 sl' ins b hst'
   intro sl2 hs2
@@ -2437,35 +2452,34 @@ theorem insertInline_emits_norm (S : Schema) (doc : Node) (f t : Nat) (sl : Slic
 example : fnorm [Node.text [97] [⟨0, []⟩], Node.text [98] []] = true := by decide
 
 /-- **`insertInline_valid`** — `insertInline_valid_of_norm` with its residual discharged (`fit_emits_norm`): typing
-    into a valid document in normal form yields a valid document and keeps everything outside the range; the
+    into a valid document yields a valid document and keeps everything outside the range; the
     hypotheses are about the schema, the document and the typed slice only -/
 theorem insertInline_valid (S : Schema) (hdet : detB S = true) (hfill : S.fillersOKB = true)
     (hwrap : S.wrapOKB = true) (hlab : S.labelsOKB = true) (hleaf : PM.FromDom.leafOkB S = true)
-    (hts : textStableC S = true) (hcl : S.closableB = true) (hst : PM.FromDom.textStableB S = true)
+    (hts : textStableC S = true) (hcl : S.closableB = true)
     (doc doc' : Node) (f t : Nat) (sl : Slice)
     (hsl : sl.inlineLeaves S = true) (hslv : sl.closedValid S = true) (hsn : fnorm sl.content = true)
     (hv : C01.Valid S doc)
-    (hn : fnorm doc.kids = true) (hattrs : S.nodeAttrsOK doc = true) (hft : f ≤ t) (st : Step)
+    (hattrs : S.nodeAttrsOK doc = true) (hft : f ≤ t) (st : Step)
     (h : replaceStep S doc f t sl = .ok (some st))
     (ha : S.apply st doc = .ok doc') :
     C01.Valid S doc' ∧ Kept (ftoks doc.kids) (ftoks doc'.kids) f t (textUnits (sliceToks' sl)) :=
-  insertInline_valid_of_norm S hdet hfill hwrap hlab hleaf hts hcl hst doc doc' f t sl hsl hslv hv hn hattrs hft st h
+  insertInline_valid_of_norm S hdet hfill hwrap hlab hleaf hts hcl doc doc' f t sl hsl hslv hv hattrs hft st h
     (fun _ _ _ _ sl' _ _ e => fit_emits_norm S doc f t sl hsn st h sl' (by rw [e]; rfl)) ha
 
 /-- **`replace_valid_of_inv`** — `replace_valid_of_inv_of_norm` with its residual discharged (`fit_emits_norm`): the
     request slice in normal form instead of a hypothesis about the emitted step -/
 theorem replace_valid_of_inv (S : Schema) (hdet : detB S = true) (hfill : S.fillersOKB = true)
     (hleaf : PM.FromDom.leafOkB S = true) (hts : textStableC S = true) (hcl : S.closableB = true)
-    (hst : PM.FromDom.textStableB S = true)
     (doc doc' : Node) (f t : Nat) (sl : Slice) (hwf : sl.wf = true)
     (hslv : openValid S sl.openStart sl.openEnd sl.content = true) (hsn : fnorm sl.content = true)
     (hv : C01.Valid S doc)
-    (hn : fnorm doc.kids = true) (hattrs : S.nodeAttrsOK doc = true) (hft : f ≤ t) (st : Step)
+    (hattrs : S.nodeAttrsOK doc = true) (hft : f ≤ t) (st : Step)
     (h : replaceStep S doc f t sl = .ok (some st))
     (hend : fitEndInv S doc f t sl ≠ some false)
     (ha : S.apply st doc = .ok doc') :
     C01.Valid S doc' ∧ Kept (ftoks doc.kids) (ftoks doc'.kids) f t (textUnits (sliceToks' sl)) :=
-  replace_valid_of_inv_of_norm S hdet hfill hleaf hts hcl hst doc doc' f t sl hwf hslv hv hn hattrs hft st h hend
+  replace_valid_of_inv_of_norm S hdet hfill hleaf hts hcl doc doc' f t sl hwf hslv hv hattrs hft st h hend
     (fun _ _ _ _ sl' _ _ e => fit_emits_norm S doc f t sl hsn st h sl' (by rw [e]; rfl)) ha
 
 /-! ## The emitted step applies (first sentence of C11): deletions that fit trivially
@@ -2483,11 +2497,11 @@ building a Fitter (`fits_trivially`).  Either end may lie strictly inside a text
 * `fnorm doc.kids` (no empty text nodes, no adjacent text nodes with equal marks: what `Fragment.from_array` /
   `Node.from_json` build) and `pairAligned` for both ends (Python cannot cut a `str` inside a surrogate pair).
 
-WHAT IS MISSING for the general `delete_applies` (the Fitter's answer `ReplaceStep(f, t', ⟨placed, depth(from), d⟩)` or the
+WHAT THE GENERAL `delete_applies` NEEDED — proved in the last section of this file, `delete_applies` — (the Fitter's answer `ReplaceStep(f, t', ⟨placed, depth(from), d⟩)` or the
 replace-around "move" form): the success of `replace_outer` at the joined levels.  At each joined depth `i` the replace
 calls `close(node_i, left_i ++ inner_i ++ right_i)` with `left_i` the children of the document's ancestor of `from`
 before the path, `inner_i` the closed deeper level plus the fillers `close_frontier_node` added, `right_i` the children
-of the ancestor of `t'` behind the path.  Needed and not yet proved: (1) a description of `placed` as this chain
+of the ancestor of `t'` behind the path.  Needed (and since proved): (1) a description of `placed` as this chain
 (`PureV`, Proofs/FitValid.lean, gives validity of each level but not *which* children it has); (2) from `Coh`
 (Proofs/FitCoherent.lean) at the end of `close`: `frontier[i].match` is the state after `left_i ++ inner_i`, and
 `findCloseLevel` / `closeFit_valid` give that `right_i` is accepted from it — i.e. `checkContent` of the joined node;
@@ -2609,5 +2623,779 @@ theorem emitted_applies_of_result (S : Schema) (ty0 : TypeId) (a0 : Attrs) (m0 :
     (hs : sliceKids K F T₀ = .ok sl) (hL : LeftRel K' K F) (hR : RightRel S K' T K T₀) :
     ∃ doc', S.apply (.replace F T sl false) (.elem ty0 a0 m0 K') = .ok doc' :=
   replace_applies_of_result S ty0 a0 m0 K K' F T₀ T sl hvc hv hn hn' hft ht hft' hs hL hR
+
+/-! ## The Fitter never raises on opened slices (`fit_no_raise`)
+
+Inside the loop of `Fitter.fit` the code raises at three places only (`fit_no_raise_partial`, `fit_raise_sites` above, and
+the walk along a stale `open_start`); PM/FitRaiseGuard.lean names what each needs, as decidable predicates:
+
+* **start site** `close_node_start`: `node.type.content_match.fill_before(frag)` must not be `None` for the nodes of the open
+  start spine (`Schema.startSiteOk`; `assert fill_before_frag is not None` otherwise);
+* **end site** `place_nodes` pushing the open end: the children of the nodes of the open end spine must be a matchable
+  beginning of their content expression (`Schema.endSiteOk`; `content_match_at(child_count)` raises ValueError otherwise — the
+  finding C11-fitter-partial-node);
+* the **unplaced slice stays `Slice.wf`**: `place_nodes` keeps `open_start` when it stops short of the end of a fragment above
+  the open level, and `open_more` raises `open_end` past a leaf that follows a non-leaf sibling; the next iteration then walks
+  `content_at(…).first_child.content` through a node that is not there (AttributeError / AssertionError; random schemas).
+
+`Slice.sitesOk` is the condition **in one state** (`fit_step_returns`; the end site is exact: `endSite_exact`, the start site
+at its innermost level: `startSite_exact`).  The depths to which the slice is open and the children present change over the
+run: `open_more` can open any node once what precedes it is placed or dropped, `drop_node` / `place_nodes` take children away
+from the front of a node that is open at its start, the end spine moves down the last-child chain when the only node left is
+opened.  So the **static** guard on the request slice asks the condition of every *suffix* of a child list:
+`Slice.openPrefixOk` = `fillableKids` (every non-leaf node, every suffix of its children can be filled in front of) ∧
+`endChainOk` (along the last-child chain every suffix of the children is a matchable beginning).  It is kept by everything the
+loop does to the unplaced content and implies `sitesOk` whatever the depths (`openPrefixOk_invariant`).  Which slices satisfy
+it: every slice cut from a valid document whose non-leaf nodes have content the automaton accepts from the start state
+whatever is cut off in front (`x*`, `x+`, `(x | y)*`, `title? block*`: `openPrefixOk_of_cut`) — in the bundled family the slices that do not put a `list_item(paragraph, list…)`, a
+`block(a, b)` (content `a b`), … on the last-child chain; the tie (op `fitRaise`, harness/rangeplan.py) counts them: the
+hypotheses of `fit_no_raise` hold on about nine requests in ten, among them some 3000 slices per run that are open and go
+through the Fitter.  For the third place: `Slice.stableOk` (static; `stableOk_keeps_wf`) or the run hypothesis `unplacedWfWhile`
+(which, unlike `unplacedWfRun`, presupposes nothing about the run going through). -/
+
+/-- **`fit_step_returns`** — one iteration of the loop of `fit` returns in every state that is in step, whose unplaced slice
+    is well-formed and satisfies the two site conditions for its open depths (`Slice.sitesOk`) -/
+theorem fit_step_returns (S : Schema) (hdet : detB S = true) (hfill : S.fillersOKB = true) (hwrap : S.wrapOKB = true)
+    (hlab : S.labelsOKB = true) (hts : textStableC S = true) (hcl : S.closableB = true) (st : FitState)
+    (hin : st.inStepB = true) (hwf : st.unplaced.wf = true) (hsites : st.unplaced.sitesOk S = true) :
+    ∃ st', fitStep S st = .ok st' := by
+  simp only [FitState.inStepB, Bool.and_eq_true, Bool.not_eq_eq_eq_not, Bool.not_true, List.all_eq_true,
+    decide_eq_true_eq] at hin
+  obtain ⟨⟨hne, hall⟩, hsp⟩ := hin
+  have inv : InStep st := by
+    refine ⟨fun it hit => Option.isSome_iff_exists.1 (hall it hit), ?_, spineR_rspineOK _ _ hsp⟩
+    intro h0
+    rw [h0] at hne
+    simp at hne
+  exact fitStep_total S (detS_of_detB S hdet) (fillersOK_of_B S hfill) (wrapOK_of_B S hwrap) (labelsOK_of_B S hlab)
+    (closable_of_B S hcl) (textStableP_of_C S hts) st inv hwf hsites
+
+/-- **the end site is exact**: within the last-child chain, pushing the open end returns iff every node on it has children
+    that are a matchable beginning of its content (`content_match_at(child_count)` does not raise) -/
+theorem endSite_exact (S : Schema) (n : Nat) (cur : List Node) (fr : List FItem) (h : n ≤ spineR cur) :
+    (∃ fr', pushOpenEnd S n cur fr = .ok fr') ↔ S.endSiteOk cur n = true :=
+  pushOpenEnd_ok_iff S n cur fr h
+
+/-- **the start site is exact at its innermost level**: `close_node_start(node, 1, …)` returns iff
+    `fill_before(node.content)` is not `None` (schema guards as above, the node's type one of the schema) -/
+theorem startSite_exact (S : Schema) (hdet : detB S = true) (hfill : S.fillersOKB = true) (hts : textStableC S = true)
+    (hcl : S.closableB = true) (t : TypeId) (a : Attrs) (m : Marks) (kids : List Node) (oe : Int)
+    (ht : t < S.nodes.size) :
+    (∃ r, closeNodeStart S 1 (.elem t a m kids) oe = .ok r) ↔
+      (fillBeforeTypes S (S.dfa t) 0 (S.types kids) false).isSome = true := by
+  constructor
+  · intro ⟨r, h⟩
+    unfold closeNodeStart at h
+    obtain ⟨frag, hfrag, h⟩ := FM.bind_ok h
+    have : frag = kids := (pure_ok hfrag).symm
+    subst this
+    obtain ⟨fill, hf1, h⟩ := FM.bind_ok h
+    obtain ⟨fill', hf2, _⟩ := FM.bind_ok h
+    have e := liftRaise_ok hf2
+    subst e
+    have := fillBeforeNodes_types S _ _ _ _ fill' (liftRaise_ok hf1)
+    simp only [Schema.tyOf, Node.tyOr] at this
+    rw [this]; rfl
+  · intro h
+    exact closeNodeStart_total S (detS_of_detB S hdet) (fillersOK_of_B S hfill) (closable_of_B S hcl)
+      (textStableP_of_C S hts) 1 _ oe (by simp) (by simp [Schema.startSiteOk, ht, h])
+
+/-- **the static guard is an invariant and implies the site conditions**: `openPrefixOk` of the unplaced content is kept by
+    every iteration of the loop, and a slice that satisfies it satisfies `sitesOk` whatever its open depths -/
+theorem openPrefixOk_invariant (S : Schema) :
+    (∀ (c : List Node) (os oe : Nat), (⟨c, 0, 0⟩ : Slice).openPrefixOk S = true → (⟨c, os, oe⟩ : Slice).sitesOk S = true) ∧
+    (∀ (st st' : FitState), fitStep S st = .ok st' → st.unplaced.openPrefixOk S = true →
+      st'.unplaced.openPrefixOk S = true) := by
+  constructor
+  · intro c os oe h
+    simp only [Slice.openPrefixOk, Bool.and_eq_true] at h
+    exact sitesOk_of_openPrefix S ⟨c, os, oe⟩ h.1 h.2
+  · intro st st' h hg
+    simp only [Slice.openPrefixOk, Bool.and_eq_true] at hg ⊢
+    exact fitStep_content (openPrefix_stable S) S st st' h hg
+
+/-- **`stableOk_keeps_wf`** — the static guard for the third place: a well-formed unplaced slice whose content is stable
+    (`Slice.stableOk`: in every fragment each node is followed by one that fits wherever the first does, no leaf directly
+    behind a non-leaf node, no empty text) is well-formed after every iteration of the loop that returns, stays stable, and so
+    satisfies the run hypothesis `unplacedWfWhile`; it also satisfies the termination guard -/
+theorem stableOk_keeps_wf (S : Schema) :
+    (∀ (st st' : FitState), st.unplaced.wf = true → st.unplaced.stableOk S = true → fitStep S st = .ok st' →
+      st'.unplaced.wf = true ∧ st'.unplaced.stableOk S = true) ∧
+    (∀ (doc : Node) (f t : Nat) (sl : Slice), sl.wf = true → sl.stableOk S = true →
+      unplacedWfWhile S doc f t sl = true ∧ sl.termGuard = true) :=
+  ⟨fun st st' hwf hst h => ⟨fitStep_wf S st st' hwf hst h, fitStep_content (stable_dropStable S) S st st' h hst⟩,
+   fun doc f t sl hwf hst => ⟨unplacedWfWhile_of_stable S doc f t sl hwf hst, termGuard_of_stable S sl hwf hst⟩⟩
+
+/-- **`fit_no_raise_while`** — `replace_step` returns (`None` or a step: no exception, the loop ends, no negative `insert`)
+    for every request on a valid document whose slice satisfies the termination guard and the static guard `openPrefixOk`
+    and whose unplaced rest stays well-formed for as long as the Fitter runs (`unplacedWfWhile`, decidable, evaluated by the
+    driver; true on all but a few per thousand requests).  Schema guards: `detB`, `fillersOKB`, `wrapOKB`, `labelsOKB`,
+    `textStableC`, `closableB`. -/
+theorem fit_no_raise_while (S : Schema) (hdet : detB S = true) (hfill : S.fillersOKB = true) (hwrap : S.wrapOKB = true)
+    (hlab : S.labelsOKB = true) (hts : textStableC S = true) (hcl : S.closableB = true) (doc : Node) (f t : Nat)
+    (sl : Slice) (hv : C01.Valid S doc) (hattrs : S.nodeAttrsOK doc = true)
+    (htop : S.isTextblockO (S.tyOf doc) = false) (hft : f ≤ t) (ht : t ≤ fsize doc.kids)
+    (hterm : sl.termGuard = true) (hg : sl.openPrefixOk S = true) (hrun : unplacedWfWhile S doc f t sl = true) :
+    ∃ r, replaceStep S doc f t sl = .ok r :=
+  replaceStep_total_of_guards S (detS_of_detB S hdet) (fillersOK_of_B S hfill) (wrapOK_of_B S hwrap)
+    (labelsOK_of_B S hlab) (closable_of_B S hcl) (textStableP_of_C S hts) doc f t sl hv hattrs htop (by omega) ht hterm hg hrun
+
+/-- **`fit_no_raise`** — the same with static guards only: for every range `f ≤ t` of a valid document (top node not a
+    textblock, element types creatable) and **every slice, of any open depths**, that is well-formed (`Slice.wf`) and
+    satisfies `Slice.openPrefixOk` (the two raise sites of `place_nodes`) and `Slice.stableOk` (the unplaced slice stays
+    well-formed; it implies the termination guard), `replace_step` returns: the Fitter does not raise, its loop ends, and
+    the emitted step has a non-negative `insert`.  What it returns is then well-formed, valid and respects the request:
+    `fit_no_raise_emits` below. -/
+theorem fit_no_raise (S : Schema) (hdet : detB S = true) (hfill : S.fillersOKB = true) (hwrap : S.wrapOKB = true)
+    (hlab : S.labelsOKB = true) (hts : textStableC S = true) (hcl : S.closableB = true) (doc : Node) (f t : Nat)
+    (sl : Slice) (hv : C01.Valid S doc) (hattrs : S.nodeAttrsOK doc = true)
+    (htop : S.isTextblockO (S.tyOf doc) = false) (hft : f ≤ t) (ht : t ≤ fsize doc.kids)
+    (hwf : sl.wf = true) (hg : sl.openPrefixOk S = true) (hst : sl.stableOk S = true) :
+    ∃ r, replaceStep S doc f t sl = .ok r :=
+  fit_no_raise_while S hdet hfill hwrap hlab hts hcl doc f t sl hv hattrs htop hft ht
+    (termGuard_of_stable S sl hwf hst) hg (unplacedWfWhile_of_stable S doc f t sl hwf hst)
+
+/-- **`fit_raises_only_at_sites`** — the converse direction, for every request on a valid document: when `replace_step` raises,
+    the run of the Fitter reaches a state, with something left to place, in which the unplaced slice is not well-formed or
+    does not satisfy a site condition for its open depths — there are no other places where it raises.  Stated with
+    reachability (`FitReach`) and with the evaluator `requestBadState` (PM/FitRaiseGuard.lean: the first such state of the run,
+    as the driver reports it for every request on which the real code raised — op `fitRaise`, counter "first failing
+    condition"). -/
+theorem fit_raises_only_at_sites (S : Schema) (hdet : detB S = true) (hfill : S.fillersOKB = true) (hwrap : S.wrapOKB = true)
+    (hlab : S.labelsOKB = true) (hts : textStableC S = true) (hcl : S.closableB = true) (doc : Node) (f t : Nat)
+    (sl : Slice) (hv : C01.Valid S doc) (hattrs : S.nodeAttrsOK doc = true)
+    (htop : S.isTextblockO (S.tyOf doc) = false) (hft : f ≤ t) (ht : t ≤ fsize doc.kids)
+    (h : replaceStep S doc f t sl = .error .raises) :
+    (∃ rf st0 st', doc.resolve f = some rf ∧ fitInit S rf sl = .ok st0 ∧ FitReach S st0 st' ∧
+      (st'.unplaced.size == 0) = false ∧ (st'.unplaced.wf = false ∨ st'.unplaced.sitesOk S = false)) ∧
+    (∃ w a b, requestBadState S doc f t sl = some (w, a, b) ∧ (w && a && b) = false) :=
+  ⟨replaceStep_raises_reach S (detS_of_detB S hdet) (fillersOK_of_B S hfill) (wrapOK_of_B S hwrap) (labelsOK_of_B S hlab)
+      (closable_of_B S hcl) (textStableP_of_C S hts) doc f t sl hv hattrs htop (by omega) ht h,
+   replaceStep_raises_bad S (detS_of_detB S hdet) (fillersOK_of_B S hfill) (wrapOK_of_B S hwrap) (labelsOK_of_B S hlab)
+      (closable_of_B S hcl) (textStableP_of_C S hts) doc f t sl hv hattrs htop (by omega) ht h⟩
+
+/-- **`openPrefixOk_of_cut`** — which ordinary slices satisfy the guard: **every slice cut from a valid document**
+    (`src.slice a b`, any open depths), the document in normal form (no empty text nodes), provided its non-leaf nodes have
+    *suffix-closed* content (`Schema.homogKids`; `Schema.suffixClosedB`: every edge of every state of the type's automaton is an
+    edge of the start state with the same target — `x*`, `x+`, `(x | y)*`, `title? block*`; not `paragraph block*`, `a b`).
+    `Fragment.cut` returns a contiguous run of the children with the two outer ones cut themselves
+    (`fcutLoop_types_infix`), so the children of every node of the slice are by type an infix of an accepted sequence, and
+    with suffix-closed content every suffix of an infix is matchable from the start state (Proofs/FitCutGuard.lean). -/
+theorem openPrefixOk_of_cut (S : Schema) (src : Node) (a b : Nat) (sl : Slice) (hsrc : C01.Valid S src)
+    (hn : fnormKids src.kids = true) (hh : S.homogKids src.kids = true) (hcut : src.slice a b = .ok sl) :
+    sl.openPrefixOk S = true :=
+  slice_openPrefixOk S src a b sl hsrc hn hh hcut
+
+/-- … in particular, in a schema all of whose node types have suffix-closed content (`Schema.homogSchemaB`: the
+    bundled `basic` schema), **every** slice cut from a valid document in normal form satisfies the guard -/
+theorem openPrefixOk_of_cut_homogSchema (S : Schema) (hS : S.homogSchemaB = true) (src : Node) (a b : Nat) (sl : Slice)
+    (hsrc : C01.Valid S src) (hn : fnormKids src.kids = true) (hcut : src.slice a b = .ok sl) :
+    sl.openPrefixOk S = true :=
+  slice_openPrefixOk S src a b sl hsrc hn (homogKids_of_schema S hS _ (checkNode_kids hsrc)) hcut
+
+/-- **`fit_no_raise_cut`** — the no-raise theorem for the slices the property quantifies over, in a schema with suffix-closed
+    content: for every slice cut from a valid document in normal form that is stable (`Slice.stableOk`), `replace_step`
+    returns on every range of a valid document -/
+theorem fit_no_raise_cut (S : Schema) (hdet : detB S = true) (hfill : S.fillersOKB = true) (hwrap : S.wrapOKB = true)
+    (hlab : S.labelsOKB = true) (hts : textStableC S = true) (hcl : S.closableB = true) (hS : S.homogSchemaB = true)
+    (doc : Node) (f t : Nat) (src : Node) (a b : Nat) (sl : Slice) (hsrc : C01.Valid S src)
+    (hn : fnormKids src.kids = true) (hcut : src.slice a b = .ok sl) (hst : sl.stableOk S = true)
+    (hv : C01.Valid S doc) (hattrs : S.nodeAttrsOK doc = true) (htop : S.isTextblockO (S.tyOf doc) = false)
+    (hft : f ≤ t) (ht : t ≤ fsize doc.kids) :
+    ∃ r, replaceStep S doc f t sl = .ok r :=
+  fit_no_raise S hdet hfill hwrap hlab hts hcl doc f t sl hv hattrs htop hft ht (sliceKids_wf _ _ _ _ hcut)
+    (openPrefixOk_of_cut_homogSchema S hS src a b sl hsrc hn hcut) hst
+
+/-- **the guard is false on the finding's input, and the model raises there** (C11-fitter-partial-node): schema `block: "a b"`,
+    `doc(block(a("xy"), b("zw")))`, the slice `<block(a("y"), b("z"))>(2,2)` (cut with the parents kept) inserted at
+    position 6.  Every other hypothesis of `fit_no_raise` holds — schema guards, valid document, `stableOk`, `Slice.wf` (both
+    slices of this run are well-formed: the `example` below; `spineL` / `spineR` are not kernel-evaluable), even `sitesOk`
+    for the slice as it stands — but `endChainOk` is false: `[b]`, what is left of the block's children once
+    `a("y")` has been taken apart, is not a matchable beginning of `a b`.  After one iteration (`"y"` placed into the `a` of
+    the document, `a` dropped) the unplaced slice is `<block(b("z"))>(1,2)`, `sitesOk` is false, and the next iteration
+    raises: `place_nodes` places `block(b("z"))` — `close_node_start` fills `a()` in front — and pushes its open end with
+    `content_match_at(child_count)` over `[b]`.  The real `replace_step` raises ValueError on this input (the recorded
+    finding). -/
+example :
+    let nt (name : String) (isText inlc : Bool) (dfa : Array DfaState) : NodeType :=
+      { name := name, isText := isText, isInline := isText, isLeaf := isText, isAtom := isText,
+        inlineContent := inlc, isolating := false, defining := false, code := false,
+        dfa := dfa, markSet := none, attrs := [] }
+    let S : Schema := { nodes := #[nt "doc" false false #[⟨false, [(3, 1)]⟩, ⟨true, [(3, 1)]⟩],
+                                   nt "a" false true #[⟨true, [(4, 0)]⟩],
+                                   nt "b" false true #[⟨true, [(4, 0)]⟩],
+                                   nt "block" false false #[⟨false, [(1, 1)]⟩, ⟨false, [(2, 2)]⟩, ⟨true, []⟩],
+                                   nt "text" true false #[⟨true, []⟩]],
+                        marks := #[], top := 0, textTy := 4 }
+    let doc := Node.elem 0 [] [] [.elem 3 [] [] [.elem 1 [] [] [.text [120, 121] []], .elem 2 [] [] [.text [122, 119] []]]]
+    let sl : Slice := ⟨[.elem 3 [] [] [.elem 1 [] [] [.text [121] []], .elem 2 [] [] [.text [122] []]]], 2, 2⟩
+    detB S = true ∧ S.fillersOKB = true ∧ S.wrapOKB = true ∧ S.labelsOKB = true ∧ textStableC S = true ∧
+    S.closableB = true ∧ S.checkNode doc = true ∧ S.nodeAttrsOK doc = true ∧ S.isTextblockO (S.tyOf doc) = false ∧
+    sl.stableOk S = true ∧ sl.sitesOk S = true ∧ S.fillableKids sl.content = true ∧
+    S.endChainOk sl.content = false ∧ sl.openPrefixOk S = false ∧
+    (match replaceStep S doc 6 6 sl with | .error .raises => true | _ => false) = true ∧
+    (match doc.resolve 6 with
+     | some rf =>
+       (match (do let s0 ← fitInit S rf sl; fitStep S s0) with
+        | .ok s1 => s1.unplaced == ⟨[.elem 3 [] [] [.elem 2 [] [] [.text [122] []]]], 1, 2⟩ &&
+            !s1.unplaced.sitesOk S &&
+            (match fitStep S s1 with | .error .raises => true | _ => false)
+        | _ => false)
+     | none => false) = true := by decide +kernel
+
+/-- the hypotheses of `fit_no_raise` are satisfiable on a slice that is open on both sides and goes through the Fitter:
+    `<p("x"), p("y")>(1,1)` pasted into the paragraph of `doc(p("ab"))` at position 2 (`doc: "paragraph+"`,
+    `paragraph: "text*"`): all guards hold, the fit is not trivial, and the answer is the step that splits the paragraph -/
+example :
+    let nt (name : String) (isText inl : Bool) (dfa : Array DfaState) : NodeType :=
+      { name := name, isText := isText, isInline := isText, isLeaf := isText, isAtom := isText,
+        inlineContent := inl, isolating := false, defining := false, code := false,
+        dfa := dfa, markSet := none, attrs := [] }
+    let S : Schema := { nodes := #[nt "doc" false false #[⟨false, [(1, 1)]⟩, ⟨true, [(1, 1)]⟩],
+                                   nt "paragraph" false true #[⟨true, [(2, 0)]⟩],
+                                   nt "text" true false #[⟨true, []⟩]],
+                        marks := #[], top := 0, textTy := 2 }
+    let doc := Node.elem 0 [] [] [.elem 1 [] [] [.text [97, 98] []]]
+    let sl : Slice := ⟨[.elem 1 [] [] [.text [120] []], .elem 1 [] [] [.text [121] []]], 1, 1⟩
+    detB S = true ∧ S.fillersOKB = true ∧ S.wrapOKB = true ∧ S.labelsOKB = true ∧ textStableC S = true ∧
+    S.closableB = true ∧ S.checkNode doc = true ∧ S.nodeAttrsOK doc = true ∧ S.isTextblockO (S.tyOf doc) = false ∧
+    sl.openPrefixOk S = true ∧ sl.stableOk S = true ∧ fitsTriviallyO S doc 2 2 sl = some false ∧
+    (match replaceStep S doc 2 2 sl with
+     | .ok (some (.replace 2 2 sl' _)) => sl' == sl
+     | _ => false) = true := by decide +kernel
+
+/-- **the third raise site, exhibited** (stale `open_start`; outside `place_nodes`): schema `doc: "(sect | bq)+"`,
+    `sect: "bq bq"`, `bq: "p+"`, `p: "text*"`; the slice `<bq(p("a")), bq()>(2,1)` — `slice(3, 7)` of the valid document
+    `doc(bq(p("xa")), bq(p("b")))` (replayed on /repo) — inserted at position 6 of `doc(sect(bq(p("y")), bq(p("z"))))`, behind the first quote of
+    the section.  Every hypothesis of `fit_no_raise_while` holds (schema guards, valid document, termination guard,
+    `openPrefixOk`) except the run hypothesis: `stableOk` is false (a `bq` does not fit wherever a `bq` does: the section takes
+    exactly two), `place_nodes` takes `bq(p("a"))` at slice depth 0 and stops in front of the second quote, keeping
+    `open_start = 2`: the unplaced slice `<bq()>(2,1)` is not well-formed (`unplacedWfWhile` false), and the next
+    `find_fittable` walks two levels down the first children of an empty node: the model raises, and so does the real
+    `replace_step` (AttributeError in `find_fittable`, `node.type.spec.get("isolating")`; also upstream). -/
+example :
+    let nt (name : String) (isText inl leaf inlc : Bool) (dfa : Array DfaState) : NodeType :=
+      { name := name, isText := isText, isInline := inl, isLeaf := leaf, isAtom := leaf,
+        inlineContent := inlc, isolating := false, defining := false, code := false,
+        dfa := dfa, markSet := none, attrs := [] }
+    let S : Schema := { nodes := #[nt "doc" false false false false #[⟨false, [(1, 1), (2, 1)]⟩, ⟨true, [(1, 1), (2, 1)]⟩],
+                                   nt "sect" false false false false #[⟨false, [(2, 1)]⟩, ⟨false, [(2, 2)]⟩, ⟨true, []⟩],
+                                   nt "bq" false false false false #[⟨false, [(3, 1)]⟩, ⟨true, [(3, 1)]⟩],
+                                   nt "p" false false false true #[⟨true, [(4, 0)]⟩],
+                                   nt "text" true true true false #[⟨true, []⟩]],
+                        marks := #[], top := 0, textTy := 4 }
+    let doc := Node.elem 0 [] [] [.elem 1 [] [] [.elem 2 [] [] [.elem 3 [] [] [.text [121] []]],
+                                                 .elem 2 [] [] [.elem 3 [] [] [.text [122] []]]]]
+    let sl : Slice := ⟨[.elem 2 [] [] [.elem 3 [] [] [.text [97] []]], .elem 2 [] [] []], 2, 1⟩
+    detB S = true ∧ S.fillersOKB = true ∧ S.wrapOKB = true ∧ S.labelsOKB = true ∧ textStableC S = true ∧
+    S.closableB = true ∧ S.checkNode doc = true ∧ S.nodeAttrsOK doc = true ∧ S.isTextblockO (S.tyOf doc) = false ∧
+    sl.termGuard = true ∧ sl.openPrefixOk S = true ∧ sl.stableOk S = false ∧
+    (match replaceStep S doc 6 6 sl with | .error .raises => true | _ => false) = true ∧
+    (match doc.resolve 6 with
+     | some rf =>
+       (match (do let s0 ← fitInit S rf sl; fitStep S s0) with
+        | .ok s1 => s1.unplaced == ⟨[.elem 2 [] [] []], 2, 1⟩ &&
+            (match fitStep S s1 with | .error .raises => true | _ => false)
+        | _ => false)
+     | none => false) = true := by decide +kernel
+
+/-- … and that unplaced slice is not well-formed, while the request slice is -/
+example :
+    (⟨[.elem 2 [] [] [.elem 3 [] [] [.text [97] []]], .elem 2 [] [] []], 2, 1⟩ : Slice).wf = true ∧
+    (⟨[.elem 2 [] [] []], 2, 1⟩ : Slice).wf = false := by
+  simp [Slice.wf, spineL, spineR]
+
+/-- **`fit_no_raise_emits`** — under the static guards `replace_step` not only returns: what it returns is `None` or a step that is
+    well-formed (`StepWF`; `aroundShape` for a replace-around answer), has a valid payload (for a loosely valid request slice,
+    e.g. one cut from a valid document) and respects the request up to the monitored conjunct of `fitter_respects`.  The run
+    hypothesis `unplacedWfRun` of `fit_emits_wf` / `fit_emits_valid_payload` is discharged (`unplacedWfRun_of_while`:
+    the run returns and the unplaced slice is well-formed all along). -/
+theorem fit_no_raise_emits (S : Schema) (hdet : detB S = true) (hfill : S.fillersOKB = true) (hwrap : S.wrapOKB = true)
+    (hlab : S.labelsOKB = true) (hts : textStableC S = true) (hcl : S.closableB = true)
+    (hleaf : PM.FromDom.leafOkB S = true) (doc : Node) (f t : Nat)
+    (sl : Slice) (hv : C01.Valid S doc) (hattrs : S.nodeAttrsOK doc = true)
+    (htop : S.isTextblockO (S.tyOf doc) = false) (hft : f ≤ t) (ht : t ≤ fsize doc.kids)
+    (hwf : sl.wf = true) (hg : sl.openPrefixOk S = true) (hst : sl.stableOk S = true)
+    (hloose : sl.looseValid S = true) :
+    replaceStep S doc f t sl = .ok none ∨
+    ∃ st, replaceStep S doc f t sl = .ok (some st) ∧ StepWF st = true ∧
+      (∀ F T G1 G2 sl' ins b, st = .replaceAround F T G1 G2 sl' ins b → aroundShape F T G1 G2 sl' ins = true) ∧
+      (∃ sl', st.sliceOf = some sl' ∧ openValid S sl'.openStart sl'.openEnd sl'.content = true) ∧
+      ((∀ F T G1 G2 sl' ins b, st = .replaceAround F T G1 G2 sl' ins b →
+        noText ((sliceToks' sl').drop ins) = true) → respects (ftoks doc.kids) f t sl st = true) := by
+  obtain ⟨r, hr⟩ := fit_no_raise S hdet hfill hwrap hlab hts hcl doc f t sl hv hattrs htop hft ht hwf hg hst
+  cases r with
+  | none => exact .inl hr
+  | some st =>
+    have hrun := unplacedWfRun_of_while S doc f t sl _ hr (unplacedWfWhile_of_stable S doc f t sl hwf hst)
+    obtain ⟨h1, h2⟩ := fit_emits_wf S hdet hfill hwrap hlab doc f t sl hv hattrs hwf hft hrun st hr
+    exact .inr ⟨st, hr, h1, h2,
+      fit_emits_valid_payload S hdet hfill hwrap hlab hleaf hts hcl doc f t sl hloose hv hattrs hrun st hr,
+      fun htail => fitter_respects S doc f t sl st hft hwf hr htail⟩
+
+/-- the slices of the two examples above are well-formed (`Slice.wf`) -/
+example :
+    (⟨[.elem 3 [] [] [.elem 1 [] [] [.text [121] []], .elem 2 [] [] [.text [122] []]]], 2, 2⟩ : Slice).wf = true ∧
+    (⟨[.elem 3 [] [] [.elem 2 [] [] [.text [122] []]]], 1, 2⟩ : Slice).wf = true ∧
+    (⟨[.elem 1 [] [] [.text [120] []], .elem 1 [] [] [.text [121] []]], 1, 1⟩ : Slice).wf = true := by
+  simp [Slice.wf, spineL, spineR]
+
+/-! ## The emitted step applies (first sentence of C11): every deletion
+
+The three facts the section above lists as missing are proved (Proofs/DelSpine.lean … Proofs/DelAround.lean): the
+document the operation returns is *built* from the frames of `from` and of the position the step ends at
+(`leftK` / `rightK` / `joinK`), shown valid level by level from the frontier's matches, the fillers and the checks of
+`find_close_level`, and `replaceKids_merged` (Proofs/MergeOpen.lean) turns it into success of the replace.  What the
+run of the Fitter does *not* establish is asked of the schema, as decidable guards (PM/DeleteGuards.lean; kernel-checked
+for the bundled family, lean/Gen/Guards):
+
+* `joinCompatB` — two node types whose content automata share an edge label are `compatible_content` (fact (3): the
+  `check_join` of the document ancestors at the joined depths).  Needed: `joinCompat_needed` below (the schema
+  `doc "(x | y)+"`, `x "a b*"`, `y "b+"`).
+* `reopenOKB` — every state of every automaton is covered by a state reachable from the start over generatable types:
+  `close` re-opens the ancestors of `to` with `fill_before(node.content, True, index)` from the start state and stores the
+  node whatever the answer.
+* `S.closableB` — `fill_before(Fragment.empty, True)` answers at every state (`close_frontier_node` skips a `None`).
+* `textAbsorbB` (weaker than `FromDom.textStableB`, which `delete_applies_flat` asks) — for the trivial fit, where
+  `can_replace` looks at whole children and the replace keeps half a text child; `textStableC` (merging two text halves).
+* `inlineUniformB` — for the replace-around answer ("move the inline content behind `to` into the textblock of `from`"):
+  the fillers `close_frontier_node` computed without the moved content come behind it.
+
+Hypotheses about the document: valid (`Node.check`), in normal form, element attributes creatable, both ends
+pair-aligned, and `highClosedKids` — no text node holds a high surrogate without its low surrogate (a Python `str`
+without lone surrogates; `TextNode` refuses others): joining `"…\ud83d"` with `"\ude00…"` would put a position of
+the result inside a surrogate pair. -/
+
+/-- `pairAligned` is the function the driver evaluates (op `deleteApplies`) -/
+theorem pairAligned_eq (doc : Node) (pos : Nat) : pairAligned doc pos = PM.pairAlignedB doc pos := by
+  unfold pairAligned PM.pairAlignedB
+  cases doc.resolve pos <;> rfl
+
+/-- **`delete_applies`** — on a valid document in normal form, for `f ≤ t` both pair-aligned, every step
+    `replace_step(doc, f, t, Slice.empty)` emits — `ReplaceStep` from the trivial fit, `ReplaceStep` from the Fitter,
+    `ReplaceAroundStep` from the Fitter — **applies**: `Step.apply(doc)` returns a document -/
+theorem delete_applies (S : Schema) (hdet : detB S = true) (hfill : S.fillersOKB = true)
+    (hleaf : PM.FromDom.leafOkB S = true) (hcl : S.closableB = true) (hts : textStableC S = true)
+    (hta : textAbsorbB S = true) (hjc : joinCompatB S = true) (hro : reopenOKB S = true)
+    (hiu : inlineUniformB S = true) (doc : Node) (f t : Nat)
+    (hv : C01.Valid S doc) (hdoc : C01.IsElem doc) (hn : fnorm doc.kids = true) (hattrs : S.nodeAttrsOK doc = true)
+    (hhc : highClosedKids doc.kids = true) (hft : f ≤ t)
+    (hpf : pairAligned doc f = true) (hpt : pairAligned doc t = true) (st : Step)
+    (h : replaceStep S doc f t Slice.empty = .ok (some st)) : ∃ doc', S.apply st doc = .ok doc' := by
+  cases doc with
+  | text s m => simp [C01.IsElem, Node.isLeaf] at hdoc
+  | leaf ty a m => simp [C01.IsElem, Node.isLeaf] at hdoc
+  | elem ty0 a0 m0 K =>
+    cases hrf : (Node.elem ty0 a0 m0 K).resolve f with
+    | none =>
+      unfold replaceStep at h
+      split at h
+      · simp [pure, Except.pure] at h
+      · simp [hrf, throw, throwThe, MonadExceptOf.throw] at h
+    | some rf =>
+      cases hrt : (Node.elem ty0 a0 m0 K).resolve t with
+      | none =>
+        unfold replaceStep at h
+        split at h
+        · simp [pure, Except.pure] at h
+        · simp [hrf, hrt, throw, throwThe, MonadExceptOf.throw] at h
+      | some rt =>
+        have hpf' : rf.pairOk = true := by simpa [pairAligned, hrf] using hpf
+        have hpt' : rt.pairOk = true := by simpa [pairAligned, hrt] using hpt
+        exact replaceStep_delete_applies S (detS_of_detB S hdet) (PM.FromDom.leafOk_of_B S hleaf)
+          (fillersOK_of_B S hfill) (closable_of_B S hcl) (textStableP_of_C S hts) (textAbsorb_of_B S hta) hjc hro hiu
+          ty0 a0 m0 K f t hv hn hattrs hhc hft rf rt hrf hrt hpf' hpt' st h
+
+/-- **`delete_never_raises`** — `Transform.delete(f, t)` as a whole: `replace_step` returns `None` (nothing to do) or a
+    step, and that step applies: the operation returns a valid document with exactly the text inside `[f, t)` removed
+    and everything else kept.  No refusal branch, no hypothesis about the step. -/
+theorem delete_never_raises (S : Schema) (hdet : detB S = true) (hfill : S.fillersOKB = true)
+    (hleaf : PM.FromDom.leafOkB S = true) (hcl : S.closableB = true) (hts : textStableC S = true)
+    (hta : textAbsorbB S = true) (hjc : joinCompatB S = true) (hro : reopenOKB S = true)
+    (hiu : inlineUniformB S = true) (doc : Node) (f t : Nat)
+    (hv : C01.Valid S doc) (hdoc : C01.IsElem doc) (hn : fnorm doc.kids = true) (hattrs : S.nodeAttrsOK doc = true)
+    (hhc : highClosedKids doc.kids = true) (htop : S.isTextblockO (S.tyOf doc) = false)
+    (hft : f ≤ t) (ht : t ≤ fsize doc.kids)
+    (hpf : pairAligned doc f = true) (hpt : pairAligned doc t = true) :
+    replaceStep S doc f t Slice.empty = .ok none ∨
+    ∃ st doc', replaceStep S doc f t Slice.empty = .ok (some st) ∧ S.apply st doc = .ok doc' ∧ C01.Valid S doc' ∧
+      Kept (ftoks doc.kids) (ftoks doc'.kids) f t [] ∧
+      textUnits (ftoks doc'.kids) = textUnits ((ftoks doc.kids).take f) ++ textUnits ((ftoks doc.kids).drop t) := by
+  obtain ⟨r, hr⟩ := delete_total S hdet hfill doc f t hv hattrs htop hft ht
+  cases r with
+  | none => exact .inl hr
+  | some st =>
+    obtain ⟨doc', ha⟩ := delete_applies S hdet hfill hleaf hcl hts hta hjc hro hiu doc f t hv hdoc hn hattrs hhc hft
+      hpf hpt st hr
+    exact .inr ⟨st, doc', hr, ha, delete_valid S hdet hfill hleaf doc doc' f t hv hattrs hft st hr ha⟩
+
+/-- the positions `delete_range` hands to `delete` are pair-aligned when the requested ones are: it widens the range
+    over open and close tokens only -/
+theorem deleteRange_target_aligned (S : Schema) (doc : Node) (f t f' t' : Nat) (hdoc : C01.IsElem doc)
+    (hn : fnorm doc.kids = true) (ht : t ≤ fsize doc.kids) (hft : f ≤ t)
+    (hpf : pairAligned doc f = true) (hpt : pairAligned doc t = true)
+    (h : deleteRangeTarget S doc f t = some (f', t')) :
+    pairAligned doc f' = true ∧ pairAligned doc t' = true := by
+  obtain ⟨h1, h2, h3, ho, hc⟩ := deleteRange_extends_structurally S doc f t f' t' h
+  cases doc with
+  | text s m => simp [C01.IsElem, Node.isLeaf] at hdoc
+  | leaf ty a m => simp [C01.IsElem, Node.isLeaf] at hdoc
+  | elem ty0 a0 m0 K =>
+    have key : ∀ pos, pos ≤ fsize K → alignedAt K pos = true → pairAligned (Node.elem ty0 a0 m0 K) pos = true := by
+      intro pos hp ha
+      obtain ⟨r, hr⟩ := resolve_isSome (Node.elem ty0 a0 m0 K) pos hp
+      simp only [pairAligned, hr]
+      exact pairOk_of_aligned hr hn ha
+    have back : ∀ pos, pos ≤ fsize K → pairAligned (Node.elem ty0 a0 m0 K) pos = true → alignedAt K pos = true := by
+      intro pos hp ha
+      obtain ⟨r, hr⟩ := resolve_isSome (Node.elem ty0 a0 m0 K) pos hp
+      simp only [pairAligned, hr] at ha
+      exact aligned_of_pairOk hr hn ha
+    have ht' : t ≤ fsize K := ht
+    have h3' : t' ≤ fsize K := h3
+    constructor
+    · refine key f' (by omega) ?_
+      rcases Nat.eq_or_lt_of_le h1 with e | hlt
+      · rw [e]; exact back f (by omega) hpf
+      · rw [alignedAt_toks K _ hn]
+        apply tokAligned_nonunit_right
+        intro tk htk
+        obtain ⟨ty, a, m, e⟩ := ho f' (Nat.le_refl _) hlt
+        have e' : (ftoks K)[f']? = some (Tok.op ty a m) := e
+        rw [e'] at htk; cases htk; rfl
+    · refine key t' h3' ?_
+      rcases Nat.eq_or_lt_of_le h2 with e | hlt
+      · rw [← e]; exact back t ht' hpt
+      · rw [alignedAt_toks K _ hn]
+        obtain ⟨j, rfl⟩ : ∃ j, t' = j + 1 := ⟨t' - 1, by omega⟩
+        apply tokAligned_nonunit_left
+        intro tk htk
+        have e' : (ftoks K)[j]? = some Tok.cl := hc j (by omega) (by omega)
+        rw [e'] at htk; cases htk; rfl
+
+/-- **`deleteRange_applies`** — the step `Transform.delete_range(f, t)` records applies -/
+theorem deleteRange_applies (S : Schema) (hdet : detB S = true) (hfill : S.fillersOKB = true)
+    (hleaf : PM.FromDom.leafOkB S = true) (hcl : S.closableB = true) (hts : textStableC S = true)
+    (hta : textAbsorbB S = true) (hjc : joinCompatB S = true) (hro : reopenOKB S = true)
+    (hiu : inlineUniformB S = true) (doc : Node) (f t : Nat)
+    (hv : C01.Valid S doc) (hdoc : C01.IsElem doc) (hn : fnorm doc.kids = true) (hattrs : S.nodeAttrsOK doc = true)
+    (hhc : highClosedKids doc.kids = true) (hft : f ≤ t) (ht : t ≤ fsize doc.kids)
+    (hpf : pairAligned doc f = true) (hpt : pairAligned doc t = true) (st : Step)
+    (h : deleteRangeStep S doc f t = .ok (some st)) : ∃ doc', S.apply st doc = .ok doc' := by
+  unfold deleteRangeStep at h
+  split at h
+  · simp [throw, throwThe, MonadExceptOf.throw] at h
+  · rename_i a b htg
+    obtain ⟨h1, h2, _⟩ := deleteRange_extends_structurally S doc f t a b htg
+    obtain ⟨ha, hb⟩ := deleteRange_target_aligned S doc f t a b hdoc hn ht hft hpf hpt htg
+    exact delete_applies S hdet hfill hleaf hcl hts hta hjc hro hiu doc a b hv hdoc hn hattrs hhc (by omega) ha hb st h
+
+/-- **`deleteRange_never_raises`** — `Transform.delete_range(f, t)` as a whole -/
+theorem deleteRange_never_raises (S : Schema) (hdet : detB S = true) (hfill : S.fillersOKB = true)
+    (hleaf : PM.FromDom.leafOkB S = true) (hcl : S.closableB = true) (hts : textStableC S = true)
+    (hta : textAbsorbB S = true) (hjc : joinCompatB S = true) (hro : reopenOKB S = true)
+    (hiu : inlineUniformB S = true) (doc : Node) (f t : Nat)
+    (hv : C01.Valid S doc) (hdoc : C01.IsElem doc) (hn : fnorm doc.kids = true) (hattrs : S.nodeAttrsOK doc = true)
+    (hhc : highClosedKids doc.kids = true) (htop : S.isTextblockO (S.tyOf doc) = false)
+    (hft : f ≤ t) (ht : t ≤ fsize doc.kids)
+    (hpf : pairAligned doc f = true) (hpt : pairAligned doc t = true) :
+    deleteRangeStep S doc f t = .ok none ∨
+    ∃ st doc', deleteRangeStep S doc f t = .ok (some st) ∧ S.apply st doc = .ok doc' ∧ C01.Valid S doc' ∧
+      Kept (ftoks doc.kids) (ftoks doc'.kids) f t [] ∧
+      textUnits (ftoks doc'.kids) = textUnits ((ftoks doc.kids).take f) ++ textUnits ((ftoks doc.kids).drop t) := by
+  obtain ⟨r, hr⟩ := deleteRange_total S hdet hfill doc f t hv hattrs htop hft ht
+  cases r with
+  | none => exact .inl hr
+  | some st =>
+    obtain ⟨doc', ha⟩ := deleteRange_applies S hdet hfill hleaf hcl hts hta hjc hro hiu doc f t hv hdoc hn hattrs hhc hft
+      ht hpf hpt st hr
+    exact .inr ⟨st, doc', hr, ha, deleteRange_valid S hdet hfill hleaf doc doc' f t hv hattrs hft st hr ha⟩
+
+/-- **`replaceRange_delete_applies`** — `replace_range(f, t, slice)` with a slice of size 0 (it goes through
+    `delete_range`): the step its one call of `replace` records applies -/
+theorem replaceRange_delete_applies (S : Schema) (hdet : detB S = true) (hfill : S.fillersOKB = true)
+    (hleaf : PM.FromDom.leafOkB S = true) (hcl : S.closableB = true) (hts : textStableC S = true)
+    (hta : textAbsorbB S = true) (hjc : joinCompatB S = true) (hro : reopenOKB S = true)
+    (hiu : inlineUniformB S = true) (doc : Node) (f t : Nat) (sl : Slice) (hsz : (sl.size == 0) = true)
+    (cs : List (Nat × Nat × Slice))
+    (hv : C01.Valid S doc) (hdoc : C01.IsElem doc) (hn : fnorm doc.kids = true) (hattrs : S.nodeAttrsOK doc = true)
+    (hhc : highClosedKids doc.kids = true) (hft : f ≤ t) (ht : t ≤ fsize doc.kids)
+    (hpf : pairAligned doc f = true) (hpt : pairAligned doc t = true)
+    (h : replaceRangeCalls S doc f t sl = some cs) (c : Nat × Nat × Slice) (hc : c ∈ cs) (st : Step)
+    (hst : replaceStep S doc c.1 c.2.1 c.2.2 = .ok (some st)) : ∃ doc', S.apply st doc = .ok doc' := by
+  have hds : deleteRangeStep S doc f t = .ok (some st) := by
+    unfold replaceRangeCalls replaceRangePlan at h
+    rw [if_pos hsz] at h
+    unfold deleteRangeStep
+    split at h
+    · simp at h
+    · rename_i a b htg
+      simp only [Option.map_some, RRPlan.toCalls, Option.some.injEq] at h
+      subst h
+      simp only [List.mem_singleton] at hc
+      subst hc
+      rw [htg]
+      exact hst
+  exact deleteRange_applies S hdet hfill hleaf hcl hts hta hjc hro hiu doc f t hv hdoc hn hattrs hhc hft ht hpf hpt st hds
+
+/-! ### the trivial fit with content (typing, pasting closed content where it fits as it is) -/
+
+/-- **`trivialFit_replace_applies`** — `trivialFit_delete_applies` for every closed slice: when `fits_trivially` approves
+    (`from` and `to` have the same parent and `can_replace(index(from), index(to), slice.content)` holds), the step
+    `ReplaceStep(f, t, slice)` applies.  The slice's content in normal form; no hypothesis about its nodes (the replace
+    validates the level it changes, `can_replace` tested exactly that, up to the two text halves: `textAbsorbB`). -/
+theorem trivialFit_replace_applies (S : Schema) (hts : textStableC S = true) (hta : textAbsorbB S = true) (doc : Node)
+    (f t : Nat) (sl : Slice) (hv : C01.Valid S doc) (hdoc : C01.IsElem doc) (hn : fnorm doc.kids = true)
+    (hsn : fnorm sl.content = true) (hft : f ≤ t)
+    (hpf : pairAligned doc f = true) (hpt : pairAligned doc t = true)
+    (htr : fitsTriviallyO S doc f t sl = some true) :
+    ∃ doc', S.apply (.replace f t sl false) doc = .ok doc' := by
+  cases doc with
+  | text s m => simp [C01.IsElem, Node.isLeaf] at hdoc
+  | leaf ty a m => simp [C01.IsElem, Node.isLeaf] at hdoc
+  | elem ty0 a0 m0 K =>
+    unfold fitsTriviallyO at htr
+    split at htr
+    · rename_i rf rt hf ht
+      have hpf' : rf.pairOk = true := by simpa [pairAligned, hf] using hpf
+      have hpt' : rt.pairOk = true := by simpa [pairAligned, ht] using hpt
+      exact trivial_replace_applies S (textAbsorb_of_B S hta) (textStableP_of_C S hts) ty0 a0 m0 K f t rf rt sl hf ht hv hn
+        hsn hft hpf' hpt' htr
+    · simp at htr
+
+/-- **`replace_never_raises_flat`** — `Transform.replace(f, t, slice)` (and `insert`, `replace_with`, typing) when the
+    request fits trivially: `replace_step` answers `ReplaceStep(f, t, slice)` and that step applies -/
+theorem replace_never_raises_flat (S : Schema) (hts : textStableC S = true) (hta : textAbsorbB S = true) (doc : Node)
+    (f t : Nat) (sl : Slice) (hv : C01.Valid S doc) (hdoc : C01.IsElem doc) (hn : fnorm doc.kids = true)
+    (hsn : fnorm sl.content = true) (hft : f ≤ t)
+    (hpf : pairAligned doc f = true) (hpt : pairAligned doc t = true) (hne : ¬ (f = t ∧ sl.size = 0))
+    (htr : fitsTriviallyO S doc f t sl = some true) :
+    ∃ doc', replaceStep S doc f t sl = .ok (some (.replace f t sl false)) ∧
+      S.apply (.replace f t sl false) doc = .ok doc' := by
+  obtain ⟨doc', ha⟩ := trivialFit_replace_applies S hts hta doc f t sl hv hdoc hn hsn hft hpf hpt htr
+  exact ⟨doc', replaceStep_trivial S doc f t sl hne htr, ha⟩
+
+/-- **`insertInline_never_raises_flat`** — typing / inserting inline leaves where they fit as they are: the operation
+    returns a valid document, everything outside `[f, t)` kept, the text between an in-order subsequence of the typed
+    text -/
+theorem insertInline_never_raises_flat (S : Schema) (hdet : detB S = true) (hfill : S.fillersOKB = true)
+    (hwrap : S.wrapOKB = true) (hlab : S.labelsOKB = true) (hleaf : PM.FromDom.leafOkB S = true)
+    (hts : textStableC S = true) (hcl : S.closableB = true) (hta : textAbsorbB S = true) (doc : Node) (f t : Nat)
+    (sl : Slice) (hsl : sl.inlineLeaves S = true) (hslv : sl.closedValid S = true) (hsn : fnorm sl.content = true)
+    (hv : C01.Valid S doc) (hdoc : C01.IsElem doc) (hn : fnorm doc.kids = true) (hattrs : S.nodeAttrsOK doc = true)
+    (hft : f ≤ t) (hpf : pairAligned doc f = true) (hpt : pairAligned doc t = true)
+    (hne : ¬ (f = t ∧ sl.size = 0)) (htr : fitsTriviallyO S doc f t sl = some true) :
+    ∃ doc', replaceStep S doc f t sl = .ok (some (.replace f t sl false)) ∧
+      S.apply (.replace f t sl false) doc = .ok doc' ∧ C01.Valid S doc' ∧
+      Kept (ftoks doc.kids) (ftoks doc'.kids) f t (textUnits (sliceToks' sl)) := by
+  obtain ⟨doc', hst, ha⟩ := replace_never_raises_flat S hts hta doc f t sl hv hdoc hn hsn hft hpf hpt hne htr
+  refine ⟨doc', hst, ha, ?_⟩
+  exact insertInline_valid_partial S hdet hfill hwrap hlab hleaf hts hcl doc doc' f t sl hsl hslv hv hattrs hft _ hst
+    (by intro F T G1 G2 sl' ins b h; cases h) ha
+
+/-- the hypotheses of `trivialFit_replace_applies` are satisfiable: typing `"x"` into `doc(p("abcd"))` at position 3
+    (strictly inside the text child) fits trivially -/
+example :
+    let nt (name : String) (isText inl : Bool) (dfa : Array DfaState) : NodeType :=
+      { name := name, isText := isText, isInline := isText, isLeaf := isText, isAtom := isText,
+        inlineContent := inl, isolating := false, defining := false, code := false,
+        dfa := dfa, markSet := none, attrs := [] }
+    let S : Schema := { nodes := #[nt "doc" false false #[⟨false, [(1, 1)]⟩, ⟨true, [(1, 1)]⟩],
+                                   nt "paragraph" false true #[⟨true, [(2, 0)]⟩],
+                                   nt "text" true false #[⟨true, []⟩]],
+                        marks := #[], top := 0, textTy := 2 }
+    let doc := Node.elem 0 [] [] [.elem 1 [] [] [.text [97, 98, 99, 100] []]]
+    let sl : Slice := ⟨[.text [120] []], 0, 0⟩
+    textStableC S = true ∧ textAbsorbB S = true ∧ S.checkNode doc = true ∧ fnorm doc.kids = true ∧
+    fnorm sl.content = true ∧ pairAligned doc 3 = true ∧ fitsTriviallyO S doc 3 3 sl = some true := by
+  decide +kernel
+
+/-- the hypotheses of `delete_applies` are satisfiable on runs that reach the Fitter: `doc(p("ab"), p("cd"))` with
+    `doc: "paragraph+"`, `paragraph: "text*"` — deleting `[2, 6)` (from inside the first paragraph to inside the second)
+    is not a trivial fit and ends in the replace step that joins the paragraphs; in `doc(bq(p("ab")), p("cd"))` with
+    `doc: "block+"`, `blockquote: "block+"`, deleting `[3, 8)` ends in the replace-around step that moves `"d"` into
+    the quoted paragraph -/
+example :
+    let nt (name : String) (isText inl : Bool) (dfa : Array DfaState) : NodeType :=
+      { name := name, isText := isText, isInline := isText, isLeaf := isText, isAtom := isText,
+        inlineContent := inl, isolating := false, defining := false, code := false,
+        dfa := dfa, markSet := none, attrs := [] }
+    let S : Schema := { nodes := #[nt "doc" false false #[⟨false, [(1, 1), (2, 1)]⟩, ⟨true, [(1, 1), (2, 1)]⟩],
+                                   nt "paragraph" false true #[⟨true, [(3, 0)]⟩],
+                                   nt "blockquote" false false #[⟨false, [(1, 1), (2, 1)]⟩, ⟨true, [(1, 1), (2, 1)]⟩],
+                                   nt "text" true false #[⟨true, []⟩]],
+                        marks := #[], top := 0, textTy := 3 }
+    let doc1 := Node.elem 0 [] [] [.elem 1 [] [] [.text [97, 98] []], .elem 1 [] [] [.text [99, 100] []]]
+    let doc2 := Node.elem 0 [] [] [.elem 2 [] [] [.elem 1 [] [] [.text [97, 98] []]], .elem 1 [] [] [.text [99, 100] []]]
+    detB S = true ∧ S.fillersOKB = true ∧ PM.FromDom.leafOkB S = true ∧ S.closableB = true ∧ textStableC S = true ∧
+    textAbsorbB S = true ∧ joinCompatB S = true ∧ reopenOKB S = true ∧ inlineUniformB S = true ∧
+    S.checkNode doc1 = true ∧ fnorm doc1.kids = true ∧ S.nodeAttrsOK doc1 = true ∧ highClosedKids doc1.kids = true ∧
+    pairAligned doc1 2 = true ∧ pairAligned doc1 6 = true ∧
+    fitsTriviallyO S doc1 2 6 Slice.empty = some false ∧
+    (match replaceStep S doc1 2 6 Slice.empty with
+     | .ok (some (.replace 2 6 sl _)) => sl == Slice.empty
+     | _ => false) = true ∧
+    S.checkNode doc2 = true ∧ fnorm doc2.kids = true ∧ S.nodeAttrsOK doc2 = true ∧ highClosedKids doc2.kids = true ∧
+    pairAligned doc2 3 = true ∧ pairAligned doc2 8 = true ∧
+    (match replaceStep S doc2 3 8 Slice.empty with
+     | .ok (some (.replaceAround 3 10 8 9 _ 0 _)) => true
+     | _ => false) = true := by
+  decide +kernel
+
+/-! ### the direct fit: content the node `from` is in accepts as it stands (typing over a selection across blocks)
+
+`directFitB S doc f slice` (PM/DeleteGuards.lean; driver op `directApplies`): the slice is closed and, from
+`from.parent.content_match_at(from.index_after())`, `match_type` succeeds over every node of its content.  Then the loop
+of `Fitter.fit` runs once — `find_fittable` answers the innermost frontier entry at once (pass 1, slice depth 0, the top
+frontier depth), `place_nodes` takes every node (marks the parent does not allow removed, adjacent text merged by
+`Fragment.from_array`) — and `must_move_inline` / `close` go on with that content at the innermost level of `from`
+(Proofs/InsDirect.lean, Proofs/InsAround.lean).  Both answers apply: the `ReplaceStep` whose slice holds the placed
+nodes in front of the fillers, and the `ReplaceAroundStep` with `insert` = the size of the placed nodes (`insert_into`
+steps over them and appends the moved inline content).  The slice's nodes valid, its content in normal form and without
+a lone high surrogate (as for the document). -/
+
+/-- **`replace_applies_direct`** — `replace(f, t, slice)` (`insert`, `replace_with`, typing) with a closed slice that the
+    node `from` is in accepts as it stands behind `from`: every step `replace_step` emits applies -/
+theorem replace_applies_direct (S : Schema) (hdet : detB S = true) (hfill : S.fillersOKB = true)
+    (hleaf : PM.FromDom.leafOkB S = true) (hcl : S.closableB = true) (hts : textStableC S = true)
+    (hta : textAbsorbB S = true) (hjc : joinCompatB S = true) (hro : reopenOKB S = true)
+    (hiu : inlineUniformB S = true) (doc : Node) (f t : Nat) (sl : Slice)
+    (hv : C01.Valid S doc) (hdoc : C01.IsElem doc) (hn : fnorm doc.kids = true) (hattrs : S.nodeAttrsOK doc = true)
+    (hhc : highClosedKids doc.kids = true) (hft : f ≤ t)
+    (hpf : pairAligned doc f = true) (hpt : pairAligned doc t = true)
+    (hdir : directFitB S doc f sl = true) (hslv : sl.closedValid S = true) (hsn : fnorm sl.content = true)
+    (hshc : highClosedKids sl.content = true) (st : Step)
+    (h : replaceStep S doc f t sl = .ok (some st)) : ∃ doc', S.apply st doc = .ok doc' := by
+  cases doc with
+  | text s m => simp [C01.IsElem, Node.isLeaf] at hdoc
+  | leaf ty a m => simp [C01.IsElem, Node.isLeaf] at hdoc
+  | elem ty0 a0 m0 K =>
+    cases hrf : (Node.elem ty0 a0 m0 K).resolve f with
+    | none => simp [directFitB, hrf] at hdir
+    | some rf =>
+      cases hrt : (Node.elem ty0 a0 m0 K).resolve t with
+      | none =>
+        unfold replaceStep at h
+        split at h
+        · simp [pure, Except.pure] at h
+        · simp [hrf, hrt, throw, throwThe, MonadExceptOf.throw] at h
+      | some rt =>
+        have hpf' : rf.pairOk = true := by simpa [pairAligned, hrf] using hpf
+        have hpt' : rt.pairOk = true := by simpa [pairAligned, hrt] using hpt
+        simp only [directFitB, hrf, Bool.and_eq_true, beq_iff_eq] at hdir
+        obtain ⟨⟨hos, hoe⟩, hacc⟩ := hdir
+        cases hq : S.contentMatchAt (S.tyOf rf.parent) rf.parent.kids (rf.indexAfter rf.depth) with
+        | none => rw [hq] at hacc; simp at hacc
+        | some qD =>
+          rw [hq] at hacc
+          simp only at hacc
+          cases hr : (S.dfa (S.tyOf rf.parent)).run qD (S.types sl.content) with
+          | none => rw [hr] at hacc; simp at hacc
+          | some q' =>
+            exact replaceStep_direct_applies S (detS_of_detB S hdet) (PM.FromDom.leafOk_of_B S hleaf)
+              (fillersOK_of_B S hfill) (closable_of_B S hcl) (textStableP_of_C S hts) (textAbsorb_of_B S hta) hjc hro
+              hiu ty0 a0 m0 K f t hv hn hattrs hhc hft rf rt hrf hrt hpf' hpt' sl hos hoe hsn hslv hshc qD q' hq hr
+              st h
+
+/-- **`insertInline_never_raises_direct_partial`** — typing / inserting inline leaves over a range `[f, t)` whose start
+    lies in a node that accepts them as they stand (`directFitB`: typing into a textblock, over a selection inside it or
+    across blocks): `replace_step` returns `None` or a step, the step applies, the returned document is valid,
+    everything outside `[f, t)` is kept and the text between is an in-order subsequence of the typed text.  No refusal
+    branch, no hypothesis about the step.
+    FULL STATEMENT (`insertInline_never_raises`): the same without `hdir`.  Missing: the runs of `Fitter.fit` in which
+    `find_fittable` does not answer the innermost frontier entry for the whole content — the Fitter closes frontier
+    nodes first (typing at a place between blocks: the text goes into a wrapper paragraph `find_wrapping` supplies) or
+    `place_nodes` takes a prefix only; for those `insertInline_total_valid_partial` keeps its refusal branch. -/
+theorem insertInline_never_raises_direct_partial (S : Schema) (hdet : detB S = true) (hfill : S.fillersOKB = true)
+    (hwrap : S.wrapOKB = true) (hlab : S.labelsOKB = true) (hleaf : PM.FromDom.leafOkB S = true)
+    (hts : textStableC S = true) (hcl : S.closableB = true)
+    (hta : textAbsorbB S = true) (hjc : joinCompatB S = true) (hro : reopenOKB S = true)
+    (hiu : inlineUniformB S = true) (doc : Node) (f t : Nat) (sl : Slice)
+    (hsl : sl.inlineLeaves S = true) (hslv : sl.closedValid S = true) (hsn : fnorm sl.content = true)
+    (hshc : highClosedKids sl.content = true)
+    (hv : C01.Valid S doc) (hdoc : C01.IsElem doc) (hn : fnorm doc.kids = true) (hattrs : S.nodeAttrsOK doc = true)
+    (hhc : highClosedKids doc.kids = true) (htop : S.isTextblockO (S.tyOf doc) = false)
+    (hft : f ≤ t) (ht : t ≤ fsize doc.kids)
+    (hpf : pairAligned doc f = true) (hpt : pairAligned doc t = true) (hdir : directFitB S doc f sl = true) :
+    replaceStep S doc f t sl = .ok none ∨
+    ∃ st doc', replaceStep S doc f t sl = .ok (some st) ∧ S.apply st doc = .ok doc' ∧ C01.Valid S doc' ∧
+      Kept (ftoks doc.kids) (ftoks doc'.kids) f t (textUnits (sliceToks' sl)) := by
+  obtain ⟨r, hr⟩ := insertInline_total S hdet hfill hwrap doc f t sl hsl hv hattrs htop hft ht
+  cases r with
+  | none => exact .inl hr
+  | some st =>
+    obtain ⟨doc', ha⟩ := replace_applies_direct S hdet hfill hleaf hcl hts hta hjc hro hiu doc f t sl hv hdoc hn hattrs hhc
+      hft hpf hpt hdir hslv hsn hshc st hr
+    exact .inr ⟨st, doc', hr, ha,
+      insertInline_valid S hdet hfill hwrap hlab hleaf hts hcl doc doc' f t sl hsl hslv hsn hv hattrs hft st hr ha⟩
+
+/-- the hypotheses of `replace_applies_direct` are satisfiable on runs that reach the Fitter, with both answers: typing
+    `"x"` over `[2, 6)` in `doc(p("ab"), p("cd"))` is no trivial fit and ends in a replace step; over `[3, 8)` in
+    `doc(bq(p("ab")), p("cd"))` it ends in the replace-around step with `insert = 1` that moves `"d"` behind the typed
+    `"x"` in the quoted paragraph -/
+example :
+    let nt (name : String) (isText inl : Bool) (dfa : Array DfaState) : NodeType :=
+      { name := name, isText := isText, isInline := isText, isLeaf := isText, isAtom := isText,
+        inlineContent := inl, isolating := false, defining := false, code := false,
+        dfa := dfa, markSet := none, attrs := [] }
+    let S : Schema := { nodes := #[nt "doc" false false #[⟨false, [(1, 1), (2, 1)]⟩, ⟨true, [(1, 1), (2, 1)]⟩],
+                                   nt "paragraph" false true #[⟨true, [(3, 0)]⟩],
+                                   nt "blockquote" false false #[⟨false, [(1, 1), (2, 1)]⟩, ⟨true, [(1, 1), (2, 1)]⟩],
+                                   nt "text" true false #[⟨true, []⟩]],
+                        marks := #[], top := 0, textTy := 3 }
+    let doc1 := Node.elem 0 [] [] [.elem 1 [] [] [.text [97, 98] []], .elem 1 [] [] [.text [99, 100] []]]
+    let doc2 := Node.elem 0 [] [] [.elem 2 [] [] [.elem 1 [] [] [.text [97, 98] []]], .elem 1 [] [] [.text [99, 100] []]]
+    let sl : Slice := ⟨[.text [120] []], 0, 0⟩
+    detB S = true ∧ S.fillersOKB = true ∧ PM.FromDom.leafOkB S = true ∧ S.closableB = true ∧ textStableC S = true ∧
+    textAbsorbB S = true ∧ joinCompatB S = true ∧ reopenOKB S = true ∧ inlineUniformB S = true ∧
+    sl.closedValid S = true ∧ fnorm sl.content = true ∧ highClosedKids sl.content = true ∧
+    S.checkNode doc1 = true ∧ fnorm doc1.kids = true ∧ S.nodeAttrsOK doc1 = true ∧ highClosedKids doc1.kids = true ∧
+    pairAligned doc1 2 = true ∧ pairAligned doc1 6 = true ∧ directFitB S doc1 2 sl = true ∧
+    fitsTriviallyO S doc1 2 6 sl = some false ∧
+    (match replaceStep S doc1 2 6 sl with
+     | .ok (some (.replace 2 6 sl' _)) => sl' == sl
+     | _ => false) = true ∧
+    S.checkNode doc2 = true ∧ fnorm doc2.kids = true ∧ S.nodeAttrsOK doc2 = true ∧ highClosedKids doc2.kids = true ∧
+    pairAligned doc2 3 = true ∧ pairAligned doc2 8 = true ∧ directFitB S doc2 3 sl = true ∧
+    (match replaceStep S doc2 3 8 sl with
+     | .ok (some (.replaceAround 3 10 8 9 _ 1 _)) => true
+     | _ => false) = true := by
+  decide +kernel
+
+/-- **`joinCompat_needed`** — without `joinCompatB` the statement is false, in the model as in the code: schema
+    `doc: "(x | y)+"`, `x: "a b*"`, `y: "b+"` (leaves `a`, `b`) satisfies every other guard; in `doc(x(a), y(b, b))` the
+    request `delete(2, 5)` does not fit trivially (`from` and `to` have different parents); the Fitter closes at depth 1 (the
+    `b` behind `to` is accepted behind `a` in `x`), emits `ReplaceStep(2, 5, Slice.empty)`, and `apply` refuses it
+    (`check_join`: the start states of `x` and `y` share no node type — `ReplaceError("Cannot join y onto x")`,
+    `TransformError` from `Transform.delete`) -/
+theorem joinCompat_needed :
+    let nt (name : String) (leaf : Bool) (dfa : Array DfaState) : NodeType :=
+      { name := name, isText := false, isInline := false, isLeaf := leaf, isAtom := leaf,
+        inlineContent := false, isolating := false, defining := false, code := false,
+        dfa := dfa, markSet := none, attrs := [] }
+    let S : Schema := { nodes := #[nt "doc" false #[⟨false, [(1, 1), (2, 1)]⟩, ⟨true, [(1, 1), (2, 1)]⟩],
+                                   nt "x" false #[⟨false, [(3, 1)]⟩, ⟨true, [(4, 1)]⟩],
+                                   nt "y" false #[⟨false, [(4, 1)]⟩, ⟨true, [(4, 1)]⟩],
+                                   nt "a" true #[⟨true, []⟩],
+                                   nt "b" true #[⟨true, []⟩],
+                                   { (nt "text" true #[⟨true, []⟩]) with isText := true, isInline := true }],
+                        marks := #[], top := 0, textTy := 5 }
+    let doc := Node.elem 0 [] [] [.elem 1 [] [] [.leaf 3 [] []], .elem 2 [] [] [.leaf 4 [] [], .leaf 4 [] []]]
+    joinCompatB S = false ∧
+    detB S = true ∧ S.fillersOKB = true ∧ PM.FromDom.leafOkB S = true ∧ S.closableB = true ∧ textStableC S = true ∧
+    textAbsorbB S = true ∧ reopenOKB S = true ∧ inlineUniformB S = true ∧
+    S.checkNode doc = true ∧ fnorm doc.kids = true ∧ S.nodeAttrsOK doc = true ∧ highClosedKids doc.kids = true ∧
+    pairAligned doc 2 = true ∧ pairAligned doc 5 = true ∧
+    (match replaceStep S doc 2 5 Slice.empty with
+     | .ok (some (.replace 2 5 sl _)) => sl == Slice.empty
+     | _ => false) = true ∧
+    S.apply (.replace 2 5 Slice.empty false) doc = .error .failed := by
+  intro nt S doc
+  refine ⟨by decide +kernel, by decide +kernel, by decide +kernel, by decide +kernel, by decide +kernel,
+    by decide +kernel, by decide +kernel, by decide +kernel, by decide +kernel, by decide +kernel, by decide +kernel,
+    by decide +kernel, by decide +kernel, by decide +kernel, by decide +kernel, by decide +kernel, ?_⟩
+  simp [Schema.apply, Schema.fromReplace, Schema.replace, doc, replaceKids, inRange, depthAt, Slice.empty, Slice.wf,
+    spineL, spineR, outer, atLevel, twoWay, splitRight, Schema.compatibleContent, Dfa.compatible, S, nt, Schema.dfa,
+    Schema.nodeType, Dfa.edgesOf, Except.map]
 
 end PM.C11
